@@ -65,7 +65,7 @@ def job(payload):
     rng = random.Random(seed)
     out = {"n": 0, "o1": 0, "o1_skipped": 0, "hist": 0, "diag_cases": 0, "nontrivial": 0, "bad": [], "samples": [], "depths": {}}
     for w, opidx, depth in cases:
-        ops = [POOL[i] for i in opidx]
+        ops = [POOL[i] if isinstance(i, int) else i for i in opidx]
         junk = [rng.choice(POOL) for _ in range(max(0, depth - len(ops)))]
         # closures as operands are applied when read through a name: use 'direct'/'detour' only for them
         hk = ["direct", "detour", "let", "scope"]
@@ -175,6 +175,28 @@ def run(chk):
         for _ in range(300 if quick else 6000):
             cases.append((w, tuple(rng.randrange(n) for _ in range(3)), rng.randint(3, 6)))
         cases.append((w, (0, 1), 2))
+    # haystack/needle words on random operands over a tiny alphabet: overlaps, repeats, NULs, needle at several places at once
+    def rstr():
+        return S(bytes(rng.choice(b"ab\x00") if rng.random() < 0.9 else rng.randrange(256) for _ in range(rng.choice([0, 1, 1, 2, 2, 3, 4, 5, 6]))))
+    def rseq():
+        return seq(*[I(rng.choice([1, 2])) if rng.random() < 0.9 else rstr() for _ in range(rng.choice([0, 1, 1, 2, 2, 3, 4, 5]))])
+    def related(mk, a):
+        # a needle cut out of the haystack (prefix / suffix / middle), so that the interesting answer is frequent
+        if a[0] == "str":
+            b = a[1][0]
+            i = rng.randint(0, len(b)); j = rng.choice([len(b), rng.randint(i, len(b))])
+            return S(b[i:j])
+        if a[0] == "cap":
+            items = a[2][1] if a[2][0] == "alt" else [a[2]]
+            i = rng.randint(0, len(items)); j = rng.choice([len(items), rng.randint(i, len(items))])
+            return seq(*items[i:j])
+        return mk()
+    for _ in range(700 if quick else 30000):
+        mk = rng.choice([rstr, rstr, rseq])
+        a = mk()
+        b = related(mk, a) if rng.random() < 0.7 else mk()
+        w = rng.choice(["?find", "!find", "?starts", "!starts", "?ends", "!ends", "add", "?eq", "?lt"])
+        cases.append((w, (a, b), rng.choice([2, 2, 3, 5])))
     # back-tick brackets (the only users of stack::drop)
     for depth in range(0, 7):
         for k in range(1, depth + 3):
@@ -194,7 +216,7 @@ def run(chk):
         "distinct_nontrivial": tot.get("nontrivial", 0),
         "rule": "one evaluation = one (word, operand tuple, depth) cell run through 2-4 histories (O1 each, O2 across) or one API-input run; "
                 "non-trivial = the model predicts at least one result (the word applies to these operands)",
-        "words": [wtext(w) for w in WORDS1 + WORDS2 + WORDS3 + NPOS], "pool_size": n,
+        "words": [wtext(w) for w in WORDS1 + WORDS2 + WORDS3 + NPOS], "pool_size": n, "random_haystack_needle_cells": 700 if quick else 30000,
         "arity2_pairs_exhaustive": not quick,
         "O1_model_comparisons": tot.get("o1", 0) + tot.get("api_o1", 0), "O1_skipped": tot.get("o1_skipped", 0),
         "history_pairs_compared": tot.get("hist", 0), "cases_with_expected_diagnostic": tot.get("diag_cases", 0),
